@@ -11,7 +11,8 @@ EXPLANATION = (
     "`next` is classified, or (W3) membership in the frozen table of loops that exit on every non-Valid slot, which is "
     "accepted only together with the dominating load-factor guard that guarantees such a slot exists. A probe loop that "
     "only stops at an Empty slot or a matching key has no witness: tombstones can fill the table.")
-DECIDED = ["R19 every loop of the hashed collections has a termination witness (LOOP, all SCCs enumerated)"]
+DECIDED = ["R19 every loop of the hashed collections has a termination witness (LOOP, all SCCs enumerated)",
+           "R19 (cont.) the sentinel test lies on every cycle of the loop; probe loops of the frozen table stop at every non-Valid slot"]
 UNDECIDED = ["time bounds", "termination of graph list walks on corrupted adjacency lists (C07 territory)",
              "loops outside collections::{multi_map,map} are classified for information only"]
 
